@@ -33,6 +33,11 @@ below are now unconditional (a non-existent node holds nothing: `nodeD` gives th
   reads anything different afterwards.
 * membership: `handle_is_alive`, `slot_is_alive`, `var_is_alive`, `observed_is_alive`, `queued_is_alive`,
   `children_of_alive_alive`.
+* `drop_var_handle_closed_form`, `drop_var_handle_fields`: what dropping a `Var` handle does, exactly;
+  `drop_var_handle_never_panics`: it never panics when the variable exists, in any status (in particular
+  while stabilising); `drop_var_effect_closed_form`, `drop_var_action_closed_form`: the effect `.dropVar`
+  of user code and the API action `.dropVar` are this step; `drop_var_handle_no_such_var`;
+  `write_effect_after_last_drop_is_noop`.
 
 ## NOT PROVED HERE
 * that the engine's actions other than the three drops keep `aliveSet` in step with the real crate's
@@ -212,5 +217,90 @@ theorem children_of_alive_alive (s : State) (n c : Nat) (hn : s.isAlive n = true
   (aliveSet_iff s c).2 (.step ((aliveSet_iff s n).1 hn) hc)
 
 example : exOwn.isAlive 0 = true := children_of_alive_alive exOwn 1 0 (by decide) (by decide)
+
+/-! ## 7. dropping a `Var` handle: closed form, never a panic -/
+
+/-- Closed form of dropping one public handle of an existing variable `v` (`impl Drop for Var`; the API
+action `.dropVar`, and the effect `.dropVar` of a node function or handler, both run this).  It returns
+whether a handle was left to drop.  If none was left the state is unchanged.  Otherwise the handle count
+of `v` goes down by one, `v` is appended to `deadVars` exactly when this was the last handle
+(`vc.handles = 1`), and NOTHING else changes: no node, no heap entry, no observer, no status, no
+counter, no event. -/
+theorem drop_var_handle_closed_form (s : State) (v : Nat) (vc : VarCell) (h : s.vars[v]? = some vc) :
+    (dropVarHandle v).run.run s =
+      (.ok (decide (vc.handles ≠ 0)),
+       if vc.handles = 0 then s
+       else { s with
+         vars := s.vars.modify v fun x => { x with handles := x.handles - 1 },
+         deadVars := if vc.handles = 1 then s.deadVars ++ [v] else s.deadVars }) :=
+  dropVarHandle_run s v vc h
+
+/-- The same by fields: the cell of `v` has one handle less (`0 - 1 = 0`: unchanged when none was left),
+every other cell is untouched, `deadVars` is extended iff this was the last handle, and resetting
+`vars` and `deadVars` gives back the state before: no other field changed. -/
+theorem drop_var_handle_fields (s : State) (v : Nat) (vc : VarCell) (h : s.vars[v]? = some vc) :
+    ∃ s', (dropVarHandle v).run.run s = (.ok (decide (vc.handles ≠ 0)), s') ∧
+      s'.vars[v]? = some { vc with handles := vc.handles - 1 } ∧
+      (∀ w, w ≠ v → s'.vars[w]? = s.vars[w]?) ∧
+      s'.vars.size = s.vars.size ∧
+      s'.deadVars = (if vc.handles = 1 then s.deadVars ++ [v] else s.deadVars) ∧
+      { s' with vars := s.vars, deadVars := s.deadVars } = s := by
+  refine ⟨_, dropVarHandle_run s v vc h, ?_⟩
+  by_cases h0 : vc.handles = 0
+  · have h1 : ¬ vc.handles = 1 := by omega
+    rw [if_pos h0, if_neg h1]
+    refine ⟨?_, fun _ _ => rfl, rfl, rfl, rfl⟩
+    rw [h]; cases vc; simp_all
+  · rw [if_neg h0]
+    exact ⟨varDropped_getElem? s v vc h, fun w hw => varDropped_getElem?_ne s v w vc hw,
+      by simp [varDropped], rfl, rfl⟩
+
+example : (dropVarHandle 0).run.run exOwn =
+    (.ok true, { exOwn with vars := #[{ value := .int 5, setAt := 0, node := 0, handles := 0 }],
+                            deadVars := [0] }) := by
+  rw [drop_var_handle_closed_form exOwn 0 _ rfl]; rfl
+
+/-- Dropping a `Var` handle never panics when the variable exists — in ANY state: whatever the status
+(not stabilising, stabilising, running on-update handlers), whether or not the variable was written,
+is still linked, or has any handle left.  This is the clause "handles may be dropped in any order,
+before or after stabilise" of the ownership contract, for `Var` handles; the status is left as it was. -/
+theorem drop_var_handle_never_panics (s : State) (v : Nat) (vc : VarCell) (h : s.vars[v]? = some vc) :
+    ∃ b s', (dropVarHandle v).run.run s = (.ok b, s') ∧ s'.status = s.status := by
+  refine ⟨_, _, dropVarHandle_run s v vc h, ?_⟩
+  split <;> rfl
+
+/-- in particular in the middle of a stabilisation -/
+example : ∃ b s', (dropVarHandle 0).run.run { exOwn with status := .stabilising } = (.ok b, s') ∧
+    s'.status = .stabilising :=
+  drop_var_handle_never_panics _ 0 _ rfl
+
+/-- As an effect of user code (`Effect.dropVar`, run by a node function or an on-update handler during
+stabilisation): the same step, never a panic when the variable exists. -/
+theorem drop_var_effect_closed_form (env : Env) (s : State) (v : Nat) (vc : VarCell)
+    (h : s.vars[v]? = some vc) :
+    (runEffectBasic env (.dropVar v)).run.run s =
+      (.ok (), ((dropVarHandle v).run.run s).2) := by
+  rw [dropVar_effect_run env s v vc h, dropVarHandle_run s v vc h]
+
+/-- As an API action: `"noop"` when no handle was left, `"ok"` otherwise; the same state change. -/
+theorem drop_var_action_closed_form (env : Env) (tokens : Array Nat) (s : State) (v : Nat)
+    (vc : VarCell) (h : s.vars[v]? = some vc) :
+    (stepAction env (.dropVar v) tokens).run.run s =
+      (.ok (if vc.handles = 0 then "noop" else "ok", tokens), ((dropVarHandle v).run.run s).2) := by
+  rw [dropVar_action_run env tokens s v vc h, dropVarHandle_run s v vc h]
+
+/-- The only failure: the variable does not exist (a `model:` panic — the history names a variable that
+was never created; the state is unchanged). -/
+theorem drop_var_handle_no_such_var (s : State) (v : Nat) (h : s.vars[v]? = none) :
+    (dropVarHandle v).run.run s = (.error (.site "model:no-such-var"), s) :=
+  dropVarHandle_run_none s v h
+
+/-- After its last handle was dropped, writes through the variable by user code are no-ops: a closure
+can only write through a handle it still owns. -/
+theorem write_effect_after_last_drop_is_noop (env : Env) (s : State) (v : Nat) (vc : VarCell) (x : Val)
+    (h : s.vars[v]? = some vc) (h0 : vc.handles = 0) :
+    (runEffectBasic env (.setVar v x)).run.run s = (.ok (), s) := by
+  simp only [runEffectBasic, withVarHandle, Proofs.Obs.run_bind, Proofs.Obs.run_get, h, h0,
+    beq_self_eq_true, if_true, Proofs.Obs.run_pure]
 
 end IncrVerif.Props.C12
